@@ -624,6 +624,7 @@ class EventBus:
                 # Only add as child if it's a different event (not forwarding the same event)
                 if event.event_id != current_event.event_id:
                     current_event.event_results[current_handler_id].event_children.append(event)
+                    event._event_dispatched_by = current_event  # pyright: ignore[reportPrivateUsage]
 
     @overload
     async def expect(
@@ -1065,19 +1066,21 @@ class EventBus:
         current = event
         checked_ids: set[str] = set()
 
-        while current.event_parent_id and current.event_parent_id not in checked_ids:
-            checked_ids.add(current.event_parent_id)
+        while True:
+            # The event that waits for this one as a child, if a handler dispatched it
+            parent_event = current._event_dispatched_by  # pyright: ignore[reportPrivateUsage]
 
-            # Find parent event in any bus's history
-            parent_event = None
-            # Create a list copy to avoid "Set changed size during iteration" error
-            for bus in list(EventBus.all_instances):
-                if bus and current.event_parent_id in bus.event_history:
-                    parent_event = bus.event_history[current.event_parent_id]
-                    break
+            if parent_event is None and current.event_parent_id:
+                # Otherwise find parent event in any bus's history
+                # Create a list copy to avoid "Set changed size during iteration" error
+                for bus in list(EventBus.all_instances):
+                    if bus and current.event_parent_id in bus.event_history:
+                        parent_event = bus.event_history[current.event_parent_id]
+                        break
 
-            if not parent_event:
+            if not parent_event or parent_event.event_id in checked_ids:
                 break
+            checked_ids.add(parent_event.event_id)
 
             # Check if parent can be marked complete
             if parent_event.event_completed_signal and not parent_event.event_completed_signal.is_set():
